@@ -117,12 +117,21 @@ func Metadata() *rapid.Generator[map[string]string] {
 }
 
 // TimestampString is an RFC 3339 timestamp as a client would write it: any
-// numeric offset or Z, 0-9 fractional digits, years 0001-9998.
+// numeric offset or Z, 0-9 fractional digits, years 0000-9999 (the whole range
+// RFC 3339 can spell), the first and the last instants of that range included.
 func TimestampString() *rapid.Generator[string] {
 	return rapid.Custom(func(t *rapid.T) string {
-		year := rapid.SampledFrom([]int{1, 1969, 1970, 1999, 2000, 2023, 2024, 2038, 2262, 2263, 9998}).Draw(t, "year")
+		if rapid.IntRange(0, 15).Draw(t, "rangeEdge") == 0 {
+			// the two ends of the range, written in UTC or with an offset that points out of it
+			return rapid.SampledFrom([]string{
+				"0000-01-01T00:00:00Z", "0000-01-01T00:30:00+01:00", "0000-01-01T00:00:00.000001+14:00", "0000-12-31T23:59:59.999999Z",
+				"9999-12-31T23:59:59Z", "9999-12-31T23:30:00-01:00", "9999-12-31T23:59:59.999999Z", "9999-12-31T23:59:59.9999994Z",
+				"9999-12-31T23:59:59.9999995Z", "9999-12-31T23:59:59.999999999Z", "9999-12-31T23:59:59.9999996-12:00", "9999-01-01T00:00:00+23:59",
+			}).Draw(t, "edge")
+		}
+		year := rapid.SampledFrom([]int{0, 1, 1969, 1970, 1999, 2000, 2023, 2024, 2038, 2262, 2263, 9998, 9999}).Draw(t, "year")
 		if rapid.Bool().Draw(t, "anyYear") {
-			year = rapid.IntRange(1, 9998).Draw(t, "y")
+			year = rapid.IntRange(0, 9999).Draw(t, "y")
 		}
 		month := rapid.IntRange(1, 12).Draw(t, "mo")
 		day := rapid.IntRange(1, 28).Draw(t, "d")
